@@ -236,6 +236,8 @@ def run(R):
     n_slots = common.exception_slot_types(R, "C02.ERR-TYPE", ("futures.FutureBase", "async_task.AsyncTask", "batching.BatchBase", "batching.BatchItemBase"))
     R.need(n_slots >= 4, "fewer exception-carrying slots in the .pxd files than confirmed by hand (%d < 4)" % n_slots)
     common.annotation_narrowing(R, "C02.ERR-TYPE")
+    from .c01 import noexcept_rule
+    noexcept_rule(R, "C02.ERR-TYPE")
     capture_guard(R, ro, "C02.CAPTURE-GUARD")
     # ---- the error decides between send() and throw() by identity, not by truth value
     sends = [(n, c) for n, c in ro.step_sites(step) if q.attr_call(c)[1] == "send"]
